@@ -402,6 +402,33 @@ pub fn run_c14(out: &mut Out, tier: &str, _seed: u64) {
         }
     }
     out.notes.insert("sequences".into(), json!(plan.len()));
+    // every way of constructing a region typed Locked really locks its pages (and dropping it unlocks them)
+    {
+        macro_rules! ctor { ($name:expr, $n:expr, $e:expr) => {{
+            let before = vmlck_kb();
+            let made = std::panic::catch_unwind(|| $e);
+            out.search_evaluations += 1;
+            match made {
+                Ok(x) => { let during = vmlck_kb(); let want = pages_spanned($n) * PAGE / 1024;
+                    if during.saturating_sub(before) != want { out.hit("protected.constructor.locked-pages-differ", format!("{}: typed Locked, {} KiB locked where {} KiB are expected", $name, during.saturating_sub(before), want), json!({"op":"protected.constructor","constructor":$name,"len":$n})); }
+                    drop(x);
+                    if vmlck_kb() != before { out.hit("protected.residual-locked-pages", format!("{}: {} KiB still locked after the drop", $name, vmlck_kb().saturating_sub(before)), json!({"op":"protected.constructor","constructor":$name})); } }
+                Err(_) => out.hit("protected.constructor.panics", $name.to_string(), json!({"constructor":$name})),
+            }
+        }}; }
+        ctor!("Locked<HeapByteArray<32>>::gen (NewByteArray)", 32, <Locked<HeapByteArray<32>> as NewByteArray<32>>::gen());
+        ctor!("Locked<HeapByteArray<4097>>::gen (NewByteArray)", 4097, <Locked<HeapByteArray<4097>> as NewByteArray<4097>>::gen());
+        ctor!("Locked<HeapByteArray<32>>::new_byte_array", 32, <Locked<HeapByteArray<32>> as NewByteArray<32>>::new_byte_array());
+        ctor!("Locked<HeapByteArray<64>>::new_bytes", 64, <Locked<HeapByteArray<64>> as NewBytes>::new_bytes());
+        ctor!("HeapByteArray<32>::new_locked", 32, HeapByteArray::<32>::new_locked().unwrap());
+        ctor!("HeapByteArray<8193>::gen_locked", 8193, HeapByteArray::<8193>::gen_locked().unwrap());
+        ctor!("HeapByteArray<32>::gen_readonly_locked", 32, HeapByteArray::<32>::gen_readonly_locked().unwrap());
+        ctor!("HeapByteArray<64>::from_slice_into_locked", 64, HeapByteArray::<64>::from_slice_into_locked(&[7u8; 64]).unwrap());
+        ctor!("HeapBytes::from_slice_into_locked(5000)", 5000, HeapBytes::from_slice_into_locked(&[7u8; 5000]).unwrap());
+        ctor!("HeapBytes::from_slice_into_readonly_locked(100)", 100, HeapBytes::from_slice_into_readonly_locked(&[7u8; 100]).unwrap());
+        ctor!("StackByteArray<32>::mlock", 32, StackByteArray::<32>::from(&[7u8; 32]).mlock().unwrap());
+        ctor!("LockedKdf::gen (key)", 32, dryoc::kdf::protected::LockedKdf::gen().into_parts().0);
+    }
 }
 
 /// C15: every released region is all-zero
